@@ -1,5 +1,6 @@
 import CoapVerif.Model.Limiter
 import CoapVerif.Lemmas.Limiter
+import CoapVerif.Lemmas.LimiterOrder
 /-!
 # C16 — parallel-request limits are never exceeded and never leak
 
@@ -55,9 +56,6 @@ theorem total_limit_inv (limit epLimit : Int) (evs : List Event) :
   rw [hl] at h2
   omega
 
-/-- `a` arrived before `b` -/
-def Before (l : List Id) (a b : Id) : Prop := ∃ l1 l2, l = l1 ++ a :: l2 ∧ b ∈ l2
-
 /-- The queue of a path is always exactly the list of its parked requests in arrival order (`ids` is the arrival order). -/
 theorem queue_is_arrival_order (limit epLimit : Int) (evs : List Event) (k : Key) (ep : Ep)
     (h : (run (init limit epLimit) evs).eps k = some ep) :
@@ -73,40 +71,88 @@ theorem arrive_appends (s : State) (id : Id) (k : Key) (h : s.pc id = .idle ∧ 
   · rfl
   · split <;> rfl
 
-/-- FIFO per path: while an earlier request for the same path is still waiting, no event admits a later one. -/
+/-!
+### Arrival order — what is promised and what is not
+
+"Requests waiting for the same path are admitted in arrival order" is a statement about the **per-path queue**: requests
+that wait *for the path* (all slots of the path are taken) get the path's slots in the order in which they arrived
+(`Before s.ids a b`: `a` registered with the limiter before `b`).  It is proved in three forms: one event
+(`fifo_per_path`), every reachable state (`no_overtake_at_endpoint`), and in terms of what a client can observe
+(`fifo_observable`, the clause the judge checks).
+
+It is **not** a promise about the order in which requests that already own a slot of their path enter the wrapped
+function: with an endpoint limit ≥ 2 two requests of one path can both own a path slot and then race for the total limit
+(`semaphore.Acquire`); the one whose goroutine calls `Acquire` first wins, whatever the arrival order (`example` below;
+the real limiter shows this readily when two requests arrive in the same scheduling window).  The semaphore itself is
+first-come-first-served in the order of the `Acquire` calls, which is not the arrival order.
+-/
+
+/-- FIFO per path, one event: while an earlier request for the same path is still parked in the path's queue, no event
+    admits a later one to the path. -/
 theorem fifo_per_path (limit epLimit : Int) (evs : List Event) (ev : Event) (a b : Id) :
     let s := run (init limit epLimit) evs
     s.pc a = .epQueued → s.pc b = .epQueued → s.key a = s.key b → Before s.ids a b →
     (step s ev).pc b ≠ .epGranted := by
-  intro s ha hb hk hbef hg
+  intro s ha hb hk hbef
+  exact fifo_step (Inv_reachable limit epLimit evs) ev a b ha hb hk hbef
+
+/-- FIFO per path, every reachable state: nobody owns a slot of a path (let alone is in flight) while a request that
+    arrived earlier for the same path is still parked in the path's queue. -/
+theorem no_overtake_at_endpoint (limit epLimit : Int) (evs : List Event) (a b : Id) :
+    let s := run (init limit epLimit) evs
+    Before s.ids a b → s.key a = s.key b → s.pc a = .epQueued → epHolder (s.pc b) = false := by
+  intro s hbef hk ha
+  exact NoOvertake_reachable limit epLimit evs a b hbef hk ha
+
+/-- FIFO per path, as a client observes it (this is the `fifo` clause of the judge): when all slots of a path are in flight,
+    a request of that path that arrived earlier and has neither started nor returned is waiting *for the path*, and then no
+    request that arrived later for the same path is in flight. -/
+theorem fifo_observable (limit epLimit : Int) (evs : List Event) (a b : Id) :
+    let s := run (init limit epLimit) evs
+    Before s.ids a b → s.key a = s.key b →
+    s.pc a ≠ .running → isDone (s.pc a) = false →
+    (inFlight s (s.key a) : Int) = effective epLimit →
+    s.pc b ≠ .running := by
+  intro s hbef hk hnr hnd hfull hb
   have h : Inv s := Inv_reachable limit epLimit evs
-  obtain ⟨i, ep, t, he, hq⟩ := admitted_only_from_head s ev b hb hg
-  have hqa := (h.ep.some_ _ ep he).2.2.2
-  -- b is the head of the arrival-ordered list of waiters of its path …
-  have hbw : b ∈ waitingFor s (s.key i) := by rw [← hqa, hq]; simp
-  have hki : s.key i = s.key b := ((mem_waitingFor.mp hbw).2.2).symm
-  -- … but a, which arrived earlier, is in that list too, in front of b
-  obtain ⟨l1, l2, hl, hbl2⟩ := hbef
-  have hnd := h.base.nodup
-  have hfilter : waitingFor s (s.key i) =
-      l1.filter (fun x => s.pc x == .epQueued && s.key x == s.key i) ++ a :: l2.filter (fun x => s.pc x == .epQueued && s.key x == s.key i) := by
-    simp only [waitingFor, hl, List.filter_append, List.filter_cons, ha, hk, hki, beq_self_eq_true, Bool.and_self, if_true]
-  rw [← hqa, hq] at hfilter
-  rw [hl] at hnd
-  have hnd' := List.nodup_append.mp hnd
-  cases hf : l1.filter (fun x => s.pc x == .epQueued && s.key x == s.key i) with
-  | nil =>
-    rw [hf] at hfilter
-    simp only [List.nil_append, List.cons.injEq] at hfilter
-    have : a ∉ l2 := (List.nodup_cons.mp hnd'.2.1).1
-    exact this (hfilter.1 ▸ hbl2)
-  | cons c r =>
-    rw [hf] at hfilter
-    simp only [List.cons_append, List.cons.injEq] at hfilter
-    have hb1 : b ∈ l1 := by
-      have : b ∈ l1.filter (fun x => s.pc x == .epQueued && s.key x == s.key i) := by rw [hf, hfilter.1]; simp
-      exact (List.mem_filter.mp this).1
-    exact hnd'.2.2 b hb1 b (List.mem_cons_of_mem _ hbl2) rfl
+  have hel : s.epLimit = effective epLimit := (run_limits evs _).2
+  obtain ⟨hma, hmb⟩ := Before_mem hbef
+  -- a owns no slot: otherwise the path would have more owners than slots
+  have hna : epHolder (s.pc a) = false := by
+    cases hh : epHolder (s.pc a) with
+    | false => rfl
+    | true =>
+      exfalso
+      have hlt : inFlight s (s.key a) < holders s (s.key a) := by
+        apply countP_lt_of_witness (a := a) _ hma
+        · simp [hh]
+        · have : isRunning (s.pc a) = false := by
+            cases hp : s.pc a <;> simp [isRunning] <;> exact absurd hp hnr
+          simp [this]
+        · intro x _ hx
+          simp only [Bool.and_eq_true] at hx ⊢
+          refine ⟨?_, hx.2⟩
+          cases hp : s.pc x <;> simp [hp, isRunning] at hx <;> rfl
+      cases he : s.eps (s.key a) with
+      | none => have := (h.ep.none_ _ he).1; omega
+      | some ep =>
+        obtain ⟨hc, _, hcl, _⟩ := h.ep.some_ _ ep he
+        rw [hel] at hcl
+        omega
+  -- so it is parked in the path's queue, and nobody who arrived later owns a slot
+  have hqa : s.pc a = .epQueued := by
+    have hni : s.pc a ≠ .idle := (h.base.arrived a).mp hma
+    cases hp : s.pc a <;> simp [hp, epHolder, isDone] at hna hnd hni ⊢
+  have := NoOvertake_reachable limit epLimit evs a b hbef hk hqa
+  rw [hb] at this
+  simp [epHolder] at this
+
+/-- Not promised (and false): the order in which requests that own a slot of their path obtain the total limit.  Total limit 1,
+    endpoint limit 2: request 9 (path 5) is in flight; 0 and then 1 arrive for path 7 and both get a path slot; the goroutine
+    of 1 reaches `semaphore.Acquire` first; when 9 finishes, 1 is in flight and the earlier 0 still waits for the semaphore. -/
+example : let s := run (init 1 2) [.arrive 9 5, .step 9 .grant, .arrive 0 7, .arrive 1 7, .step 1 .grant, .step 0 .grant,
+      .finish 9, .step 9 .grant, .step 1 .grant]
+    s.ids = [9, 0, 1] ∧ s.pc 1 = .running ∧ s.pc 0 = .semQueued ∧ inFlight s 7 = 1 := by decide
 
 /-- A cancelled request that is still parked for its path owns nothing: resolving its cancellation removes it from the
     queue and changes **nothing else** – no other request moves, no counter, no semaphore unit, no other queue. -/
@@ -349,6 +395,11 @@ example : let s := run (init 2 1) (exampleEvs.take 5)
 
 example : Before [0, 1, 2] 1 2 := ⟨[0], [2], rfl, by simp⟩
 
+/-- hypotheses of `fifo_observable`: all slots of path 7 in flight (request 0), 1 and 2 waiting, 1 before 2 -/
+example : let s := run (init 2 1) (exampleEvs.take 4)
+    s.ids = [0, 1, 2] ∧ s.key 1 = s.key 2 ∧ s.pc 1 ≠ .running ∧ isDone (s.pc 1) = false ∧
+      (inFlight s (s.key 1) : Int) = effective 1 ∧ s.pc 2 ≠ .running := by decide
+
 /-- a settled state with a waiter: 0 in flight, 1 parked behind it (hypotheses of `waiting_justified`) -/
 example : let s := run (init 2 1) [.arrive 0 7, .step 0 .grant, .arrive 1 7]
     (∀ id ∈ s.ids, enabledBranches s id = []) ∧ s.pc 1 = .epQueued ∧ inFlight s 7 = 1 := by decide
@@ -374,6 +425,8 @@ open CoapVerif.Props.C16
 #print axioms queue_is_arrival_order
 #print axioms arrive_appends
 #print axioms fifo_per_path
+#print axioms no_overtake_at_endpoint
+#print axioms fifo_observable
 #print axioms cancel_neutral
 #print axioms cancel_neutral_sem
 #print axioms cancelled_never_starts
